@@ -48,6 +48,10 @@ func main() {
 		for i := 0; i < nc/3; i++ {
 			runCopyRet(w, genCopyRet(r.Fork()), "copyret")
 		}
+		for i := 0; i < no/20; i++ {
+			in := genGenv(r.Fork())
+			runGenv(w, in, "obj/globals-"+in.How)
+		}
 		for i := 0; i < no; i++ {
 			in := genObj(r.Fork())
 			runObj(w, in, "obj/"+in.Op)
@@ -84,6 +88,14 @@ func exhaustiveApi(w *lib.Writer) {
 func corpus(w *lib.Writer) {
 	// C10-1: a failed protected call from a host function at call depth 8k under MinimizeStackMemory
 	runC101(w)
+	// obs-1: GetGlobal/SetGlobal after the globals table was replaced
+	for _, how := range []string{"setfenv0", "replace", "thread-setfenv0"} {
+		runGenv(w, GenvIn{Kind: "genv", How: how, V: "5", Shadow: true}, "corpus/globals")
+	}
+	// obs-4 (fixed 3542b20): Insert above the top fills the gap with nil
+	for _, d := range []int{0, 2, 3} {
+		runApi(w, ApiIn{Kind: "api", Depth: d, Locals: []int{2, 2, 2, 2, 2}, Reg: RegOpt{Size: 256}, Ops: []AOp{{K: "insert", I: 3, V: 7}, {K: "get", I: 1}, {K: "get", I: 2}, {K: "insert", I: 7, V: 8}, {K: "pop", I: 1}, {K: "insert", I: 9, V: 9}}}, "corpus/insert-above-top")
+	}
 	for d := 0; d <= 4; d++ {
 		runApi(w, ApiIn{Kind: "api", Depth: d, Locals: []int{3, 2, 4, 1, 2}, Init: []int{11, 12, 13}, Reg: RegOpt{Size: 256}, Ops: []AOp{
 			{K: "get", I: 0}, {K: "get", I: 4}, {K: "get", I: -4}, {K: "get", I: 1000}, {K: "get", I: -1000},
@@ -137,6 +149,10 @@ func replay(w *lib.Writer, path string) {
 		var in ObjIn
 		json.Unmarshal(rp.Input, &in)
 		runObj(w, in, "replay")
+	case "genv":
+		var in GenvIn
+		json.Unmarshal(rp.Input, &in)
+		runGenv(w, in, "replay")
 	case "copyret":
 		var in CopyRetIn
 		json.Unmarshal(rp.Input, &in)
